@@ -130,6 +130,47 @@ class RawDribble(io.RawIOBase):
         return n
 
 
+class DuckBody(io.IOBase):
+    """HTTP-response-body style source (urllib3 / botocore): derives from io.IOBase only, not seekable,
+    read(amt) returns whatever the current transfer chunk holds (a short read), readinto() available."""
+
+    def __init__(self, pipe: Pipe) -> None:
+        super().__init__()
+        self.pipe = pipe
+
+    def readable(self) -> bool:
+        return True
+
+    def seekable(self) -> bool:
+        return False
+
+    def read(self, amt: int = -1) -> bytes:
+        if amt is None or amt < 0:
+            out = bytearray()
+            while True:
+                chunk = self.pipe.take(1 << 16)
+                if not chunk:
+                    return bytes(out)
+                out += chunk
+        if amt == 0:
+            return b""
+        return self.pipe.take(amt)
+
+    def readinto(self, b) -> int:
+        data = self.pipe.take(len(b))
+        n = len(data)
+        b[:n] = data
+        return n
+
+
+class _NullRawWriter(io.RawIOBase):
+    def writable(self) -> bool:
+        return True
+
+    def write(self, b) -> int:
+        return len(b)
+
+
 class SeekableRaw(io.RawIOBase):
     """Seekable raw file that short-reads (regular file behind a BufferedReader)."""
 
@@ -180,7 +221,8 @@ class SeekableRaw(io.RawIOBase):
         return k
 
 
-FRONTENDS = ("bytesio", "raw", "buffered", "seekable_buffered", "gzip")
+FRONTENDS = ("bytesio", "raw", "buffered", "seekable_buffered", "gzip", "duck", "rwpair")
+LIVE_FRONTENDS = ("raw", "buffered", "duck", "rwpair")
 
 
 def open_frontend(kind: str, sim: Sim, data: bytes | None = None, pipe: Pipe | None = None,
@@ -203,6 +245,11 @@ def open_frontend(kind: str, sim: Sim, data: bytes | None = None, pipe: Pipe | N
     raw = RawDribble(pipe)
     if kind == "raw":
         return raw, pipe
+    if kind == "duck":
+        return DuckBody(pipe), pipe
+    if kind == "rwpair":
+        # what socket.makefile("rwb") returns: a BufferedIOBase that is not a BufferedReader
+        return io.BufferedRWPair(raw, _NullRawWriter(), bufsize or io.DEFAULT_BUFFER_SIZE), pipe
     if kind == "buffered":
         return io.BufferedReader(raw, buffer_size=bufsize or io.DEFAULT_BUFFER_SIZE), pipe
     raise ValueError(kind)
